@@ -1007,7 +1007,7 @@ Handshake::event_write() {
       if (m_encryption.policy().prefer_encrypted_handshake()) {
         prepare_key_plus_pad();
 
-        if (!m_encryption.policy().is_retrying() && m_encryption.policy().allow_plaintext_handshake())
+        if (!m_encryption.policy().is_retrying() && m_encryption.policy().allow_plaintext_handshake() && m_encryption.policy().allow_plaintext_stream())
           m_encryption.policy().set_retry_plaintext();
 
         m_state = READ_ENC_KEY;
